@@ -88,6 +88,13 @@ pub fn gen_c18(rng: &mut Rng, thorough: bool, release: bool) -> Vec<Tagged> {
         out.push(("gen-seed-multiple-of-modulus".into(), Case::RandGen { wrap, seed, n: 4, lo: -1.0, hi: 1.0 }));
         out.push(("shuffle-seed-multiple-of-modulus".into(), Case::Shuffle { wrap, seed, n: 6 }));
     }
+    // intervals whose width overflows binary32 (max - min = +inf), from ordinary states, the largest states and
+    // state 0 (seed a multiple of the modulus: the unit draw is exactly 0, and 0 * inf is NaN)
+    for &(lo, hi) in &[(f32::MIN, f32::MAX), (-3e38f32, 3e38f32), (-2e38, 1.5e38), (-3.4e38, 1e38), (-1e38, 3.4e38), (f32::MIN, 0.0), (0.0, f32::MAX)] {
+        for seed in [0u64, LCG_M, 2 * LCG_M, 1, 12345, seed_reaching(LCG_M - 1, 1), u64::MAX / LCG_M * LCG_M] {
+            out.push(("gen-overflowing-width".into(), Case::RandGen { wrap, seed, n: 3, lo, hi }));
+        }
+    }
     // long shuffles and many draws (beyond 2^10 and 2^16 elements)
     // (the model's shuffle is quadratic in the length: 10^4 is the practical limit of the tie)
     for (k, &n) in [1023usize, 1024, 1025, 2049, 4097, 10001].iter().enumerate() {
